@@ -530,3 +530,98 @@ Proof.
   intros Hrt Hok. apply print_parse_positions_thm; [exact Hrt|].
   apply lex_render_rtoks_thm. exact Hok.
 Qed.
+
+(* ================================================================== Part 5: EXPLAIN *)
+From KV Require Import Model.ScanIO Model.ExplainText.
+
+Lemma explain_cut_thm sc f h : explain_head sc = Some h ->
+  explain_filter_text sc (explain_scan sc f) = Some (render_text f).
+Proof.
+  intros Hh. unfold explain_filter_text, explain_scan. rewrite Hh. f_equal.
+  rewrite !slength_app. cbn [String.length].
+  replace (String.length h + (String.length (render_text f) + 2) - String.length h - 2)
+    with (String.length (render_text f)) by lia.
+  apply substring_mid.
+Qed.
+
+Theorem explain_filter_reparses_thm sc f txt :
+  rt_ok f = true -> txt_ok f = true ->
+  explain_filter_text sc (explain_scan sc f) = Some txt ->
+  exists e', parse_expr_top (lex txt) = POk e' [] /\ erase e' = erase f.
+Proof.
+  intros Hrt Hok Hcut. destruct (explain_head sc) as [h|] eqn:Hh.
+  - rewrite (explain_cut_thm sc f h Hh) in Hcut. inversion Hcut; subst txt.
+    apply print_parse_text_thm; assumption.
+  - unfold explain_filter_text in Hcut. rewrite Hh in Hcut. discriminate.
+Qed.
+
+(* ================================================================== Part 6: letter case *)
+
+Lemma word_char_lower c : word_char (lower_char c) = word_char c.
+Proof. all_chars c; reflexivity. Qed.
+
+Lemma sforall_word_lower s : sforall word_char (to_lower s) = sforall word_char s.
+Proof.
+  unfold to_lower. induction s as [|c s IH]; [reflexivity|].
+  cbn [smap sforall]. rewrite word_char_lower, IH. reflexivity.
+Qed.
+
+Lemma to_lower_eq_length x y : to_lower x = to_lower y -> String.length x = String.length y.
+Proof. intros H. rewrite <- (to_lower_length x), <- (to_lower_length y), H. reflexivity. Qed.
+
+Lemma to_lower_empty x : (x =? "") = (to_lower x =? "").
+Proof. destruct x; reflexivity. Qed.
+
+Lemma case_valid a b : case_lexeme_eq a b -> valid_lexeme a = valid_lexeme b.
+Proof.
+  destruct a as [x|c s|s], b as [y|c' s'|s']; cbn [case_lexeme_eq]; intros H;
+    try discriminate; try (inversion H; reflexivity).
+  cbn [valid_lexeme]. rewrite (to_lower_empty x), (to_lower_empty y).
+  rewrite <- (sforall_word_lower x), <- (sforall_word_lower y), H. reflexivity.
+Qed.
+
+Lemma case_fuses a b a' b' : case_lexeme_eq a a' -> case_lexeme_eq b b' -> fuses a b = fuses a' b'.
+Proof.
+  destruct a, a'; cbn [case_lexeme_eq]; intros Ha; try discriminate; try inversion Ha; subst;
+  destruct b, b'; cbn [case_lexeme_eq]; intros Hb; try discriminate; try inversion Hb; subst;
+  reflexivity.
+Qed.
+
+Lemma case_admissible_from : forall items1 items2, Forall2 case_item_eq items1 items2 ->
+  forall p1 p2, match p1, p2 with
+                | Some a, Some b => case_lexeme_eq a b
+                | None, None => True
+                | _, _ => False
+                end ->
+  admissible_from p1 items1 = admissible_from p2 items2.
+Proof.
+  induction 1 as [|[g1 l1] [g2 l2] r1 r2 [Hg Hl] Hr IH]; intros p1 p2 Hp; [reflexivity|].
+  cbn [fst snd] in Hg, Hl. subst g2. cbn [admissible_from].
+  rewrite (case_valid l1 l2 Hl). rewrite (IH (Some l1) (Some l2) Hl).
+  destruct p1 as [a|], p2 as [b|]; try contradiction; [|reflexivity].
+  rewrite (case_fuses a l1 b l2 Hp Hl). reflexivity.
+Qed.
+
+Lemma case_render_length : forall items1 items2, Forall2 case_item_eq items1 items2 ->
+  forall p, expected items1 p = expected items2 p.
+Proof.
+  induction 1 as [|[g1 l1] [g2 l2] r1 r2 [Hg Hl] Hr IH]; intros p; [reflexivity|].
+  cbn [fst snd] in Hg, Hl. subst g2. cbn [expected].
+  destruct l1 as [x|c s|s], l2 as [y|c' s'|s']; cbn [case_lexeme_eq] in Hl;
+    try discriminate; try (inversion Hl; subst; rewrite IH; reflexivity).
+  cbn [lexeme_token lexeme_text]. rewrite Hl, (to_lower_eq_length x y Hl), IH. reflexivity.
+Qed.
+
+(* the letter case of words outside quotes does not change a single token, offsets included *)
+Theorem keyword_case_irrelevant_thm items1 items2 tail :
+  Forall2 case_item_eq items1 items2 -> admissible items1 tail = true ->
+  admissible items2 tail = true /\
+  lex (LexSpec.render items1 tail) = lex (LexSpec.render items2 tail).
+Proof.
+  intros H Ha.
+  assert (Ha2 : admissible items2 tail = true).
+  { unfold admissible in *. rewrite <- (case_admissible_from items1 items2 H None None I). exact Ha. }
+  split; [exact Ha2|].
+  rewrite (lex_render_expected items1 tail Ha), (lex_render_expected items2 tail Ha2).
+  apply case_render_length. exact H.
+Qed.
